@@ -41,7 +41,7 @@ theorem C03_invalid_batch (cfg : Config) (j : Json) (ctx : String) (hj : j.isArr
 /-- A batch over the size limit is rejected as a whole with -32600 "batch too large". -/
 theorem C03_batch_too_large (cfg : Config) (j : Json) (b : BatchRequest) (ctx : String) (hj : j.isArr = true)
     (hb : BatchRequest.fromJson j = .ok b) (hs : tooLarge cfg.maxBatchSize b.requests.length = true) :
-    dispatch cfg (.ok j) ctx = (errorReply (invalidRequestWith (.set (.str "batch too large"))), []) := by
+    dispatch cfg (.ok j) ctx = (errorReply (invalidRequestWith (.set freeText)), []) := by
   simp [dispatch, hj, hb, hs, errorReply]
 
 /-- No error handler applies to errors with this code. -/
@@ -69,7 +69,7 @@ theorem handleRequest_of_error (reg : Registry) (t : HandlerTable) (req : Reques
 theorem C03_method_not_found (reg : Registry) (t : HandlerTable) (req : Request) (ctx : String)
     (hm : reg.get req.method = none) (hh : NoHandlers t (-32601)) :
     handleRequest reg t req ctx
-      = (answerError req (methodNotFoundWith (.set (.str s!"method '{req.method}' not found"))), []) := by
+      = (answerError req (methodNotFoundWith (.set freeText)), []) := by
   apply handleRequest_of_error _ _ _ _ _ _ _ hh
   simp [handleRpcMethod, hm]
 
